@@ -141,7 +141,14 @@ func c20Op(kind string, seed uint64) string {
 				// the writer's option: it concerns this call only
 				var b bytes.Buffer
 				var err error
-				if ind >= 3 {
+				if ind == 5 && r.Bool() {
+					// round 13: a shared option value behind another option, or alone
+					if r.Bool() {
+						err = s.WriteToTTML(&b, c20SharedOptions[0], c20SharedTab)
+					} else {
+						err = s.WriteToTTML(&b, c20SharedTab)
+					}
+				} else if ind >= 3 {
 					err = s.WriteToTTML(&b, c20SharedOptions...) // (option values are not documents: handing the same ones to every call is fair)
 				} else {
 					err = s.WriteToTTML(&b, astisub.WriteToTTMLWithIndentOption([]string{"", "\t"}[ind-1]))
@@ -246,6 +253,8 @@ func c20NewHouse() {
 
 // c20SharedOptions: one slice of writer options (with room to spare) that every goroutine passes as it is
 var c20SharedOptions = append(make([]astisub.WriteToTTMLOption, 0, 4), astisub.WriteToTTMLWithIndentOption("  "))
+
+var c20SharedTab = astisub.WriteToTTMLWithIndentOption("\t")
 
 func c20Run(c *fw.Ctx) fw.Outcome {
 	r := c.R
